@@ -64,6 +64,10 @@ type bCfg struct {
 	// the event fault:pause-<kind>); while it is parked every other event stays enabled, then
 	// resume:ok lets the effect happen and resume:fail makes it fail
 	Pauses []string `json:"pauses,omitempty"`
+	// RmFaults: removals that may be made to fail once (armed in addition to a fault, so that the
+	// clean-up of a failed put cannot remove what it wants to): rm-ods, rm-q4 (the hash-named
+	// files), rm-link (the height link)
+	RmFaults []string `json:"rm_faults,omitempty"`
 	// Avail: the availability path is driven too; GetAns are the getter answers offered
 	Avail  bool     `json:"avail,omitempty"`
 	GetAns []string `json:"get_answers,omitempty"`
@@ -79,8 +83,8 @@ func (c bCfg) String() string {
 	for _, b := range c.Blocks {
 		bs = append(bs, b.String())
 	}
-	return fmt.Sprintf("%s{archival=%v blocks=%s sources=%v queue=%d fetch=%v sync=%v faults=%v pauses=%v avail=%v get=%v stop=%v bcastErr=%v}",
-		c.Name, c.Archival, strings.Join(bs, " "), c.Sources, c.Queue, c.FetchAns, c.SyncAns, c.Faults, c.Pauses, c.Avail, c.GetAns, c.Stop, c.BcastErr)
+	return fmt.Sprintf("%s{archival=%v blocks=%s sources=%v queue=%d fetch=%v sync=%v faults=%v rm=%v pauses=%v avail=%v get=%v stop=%v bcastErr=%v}",
+		c.Name, c.Archival, strings.Join(bs, " "), c.Sources, c.Queue, c.FetchAns, c.SyncAns, c.Faults, c.RmFaults, c.Pauses, c.Avail, c.GetAns, c.Stop, c.BcastErr)
 }
 
 // ---------------------------------------------------------------- block cache
@@ -320,6 +324,7 @@ type bSys struct {
 	actor             string            // who runs because of the event being applied: listener | avail | ""
 	fired             map[string]string // actor -> fault kind that fired during the current event
 	armed             string
+	armedRm           string
 	paused            *bPause
 	resumed           string // actor whose parked put was released by the event being applied
 
@@ -398,8 +403,82 @@ func newBridgeSys(cfg bCfg, out *bOutcomes) *bSys {
 	s.dir = dir
 	bWorlds.Store(s.id, s)
 	bDirs.Store(dir, s)
-	s.start()
+	s.prepareLeftovers()
+	if s.err == nil {
+		s.start()
+	}
 	return s
+}
+
+// prepareLeftovers puts the store directory into the state an earlier process left behind when
+// it died inside Store.put of the listed heights: the real store writes the files, then the
+// height link is taken away (it is the last thing a put creates) and, for the torn variants,
+// the ODS file is cut short. The node under test then starts on that directory.
+func (s *bSys) prepareLeftovers() {
+	var todo []*vBlock
+	for _, h := range s.hs {
+		b := s.blocks[h]
+		if b.spec.Leftover != "" && b.eds != nil && !b.empty && !s.mustNotKeep(b) {
+			todo = append(todo, b)
+		}
+	}
+	if len(todo) == 0 {
+		return
+	}
+	s.mu.Lock()
+	s.starting = true
+	s.mu.Unlock()
+	defer func() {
+		s.mu.Lock()
+		s.starting = false
+		s.mu.Unlock()
+	}()
+	ctx := context.Background()
+	st, err := store.NewStore(store.DefaultParameters(), s.dir)
+	if err != nil {
+		s.fail("harness: leftovers: %v", err)
+		return
+	}
+	for _, b := range todo {
+		inWin := availability.IsWithinWindow(vBlockTime(b.spec.TC), vWindow)
+		if inWin {
+			err = st.PutODSQ4(ctx, b.roots, b.h, b.eds)
+		} else {
+			err = st.PutODS(ctx, b.roots, b.h, b.eds)
+		}
+		if err != nil {
+			s.fail("harness: leftovers: put: %v", err)
+			return
+		}
+		base := filepath.Join(s.dir, "blocks", strings.ToUpper(fmt.Sprintf("%x", b.roots.Hash())))
+		if err := os.Remove(filepath.Join(s.dir, "blocks", "heights", strconv.FormatUint(b.h, 10)+".ods")); err != nil {
+			s.fail("harness: leftovers: %v", err)
+			return
+		}
+		fi, err := os.Stat(base + ".ods")
+		if err != nil {
+			s.fail("harness: leftovers: %v (hash file naming changed?)", err)
+			return
+		}
+		switch b.spec.Leftover {
+		case "nolink":
+		case "trunc":
+			err = os.Truncate(base+".ods", fi.Size()/2)
+		case "trunc0":
+			if err = os.Truncate(base+".ods", 7); err == nil && inWin {
+				err = os.Remove(base + ".q4")
+			}
+		default:
+			err = fmt.Errorf("unknown leftover kind %q", b.spec.Leftover)
+		}
+		if err != nil {
+			s.fail("harness: leftovers: %v", err)
+			return
+		}
+		s.out.add("start-state:leftover-" + b.spec.Leftover)
+	}
+	_ = st.Stop(ctx)
+	synctest.Wait()
 }
 
 func (s *bSys) start() {
@@ -559,6 +638,30 @@ func (s *bSys) onEffect(op, path string) error {
 	if s.starting {
 		return nil // the store's own initialisation is not part of any ingest
 	}
+	if op == "remove" {
+		// classify by what is removed; a removal of something that is not there cannot fail
+		switch {
+		case strings.Contains(path, "/blocks/heights/"):
+			op = "rm-link"
+		case strings.HasSuffix(path, ".q4"):
+			op = "rm-q4"
+		default:
+			op = "rm-ods"
+		}
+		if _, err := os.Lstat(path); err != nil {
+			return nil
+		}
+		s.out.add("store-effect:" + op)
+		if s.armedRm == op {
+			s.armedRm = ""
+			if s.fired[s.actor] == "" {
+				s.fired[s.actor] = op
+			}
+			s.out.add("store-removal-failed:" + op)
+			return errors.New("verif: injected I/O error")
+		}
+		return nil
+	}
 	s.out.add("store-effect:" + op)
 	if op == "link" || op == "symlink" {
 		// link(2)/symlink(2) onto an existing name fail with EEXIST before anything else can go
@@ -678,6 +781,11 @@ func (s *bSys) Enabled() []string {
 				ev = append(ev, "fault:pause-"+k)
 			}
 		}
+		if s.armedRm == "" && !paused {
+			for _, k := range s.cfg.RmFaults {
+				ev = append(ev, "fault:"+k)
+			}
+		}
 		if s.cfg.Avail && !s.avRunning {
 			for _, h := range s.hs {
 				if s.blocks[h].eh != nil {
@@ -791,7 +899,11 @@ func (s *bSys) Apply(ev string) error {
 		}
 	case "fault":
 		s.mu.Lock()
-		s.armed = parts[1]
+		if strings.HasPrefix(parts[1], "rm-") {
+			s.armedRm = parts[1]
+		} else {
+			s.armed = parts[1]
+		}
 		s.mu.Unlock()
 	case "avail":
 		h, _ := strconv.ParseUint(parts[1], 10, 64)
@@ -1229,7 +1341,7 @@ func (s *bSys) Fingerprint() string {
 	var sb strings.Builder
 	s.mu.Lock()
 	defer s.mu.Unlock()
-	fmt.Fprintf(&sb, "ph=%d armed=%s|q=", s.phase, s.armed)
+	fmt.Fprintf(&sb, "ph=%d armed=%s/%s|q=", s.phase, s.armed, s.armedRm)
 	parkedH, parked := uint64(0), false
 	if p := s.paused; p != nil {
 		parked = true
@@ -1282,7 +1394,7 @@ func (s *bSys) Close() {
 		return
 	}
 	s.mu.Lock()
-	s.armed = ""
+	s.armed, s.armedRm = "", ""
 	s.mu.Unlock()
 	if s.avRunning {
 		s.avCancel()
